@@ -69,6 +69,9 @@ def model(prog):
     leftovers = []   # absolute times of plain delayed calls left behind
     base = []        # stages that raised / failed with a KeyboardInterrupt
     stack = [("cleanup%d" % i, b) for i, b in enumerate(prog.get("cleanups", []))]
+    if prog.get("dup_cleanup") and stack:
+        # the same clean-up (equal callable and arguments: flush, close, flush) registered before and after cleanup0
+        stack = [("dup", DUP)] + stack[:1] + [("dup", DUP)] + stack[1:]
 
     def limit():
         return min(T, tau if tau is not None else float("inf"))
@@ -169,6 +172,7 @@ class _ClosingSel(_Sel):
         self.reactor.callLater(0, lambda: None)
 
 
+DUP = {"end": "ret"}
 LOG_TEXTS = ["report.txt", "caf\xe9 \u2603.txt", "\U0001f600.txt", "a\x00b\r\nc\x1b.txt", "100%s {x} %(y)s.txt",
              "caf\udce9-\udcff.txt"]       # (the last: os.fsdecode() of a file name that is not UTF-8)
 
@@ -286,7 +290,11 @@ def build_case(prog, reactor, stagelog):
         def setUp(self):
             super().setUp()
             for i, b in enumerate(prog.get("cleanups", [])):
+                if i == 0 and prog.get("dup_cleanup"):
+                    self.addCleanup(behave, self, "dup", DUP)
                 self.addCleanup(behave, self, "cleanup%d" % i, b)
+                if i == 0 and prog.get("dup_cleanup"):
+                    self.addCleanup(behave, self, "dup", DUP)
             return behave(self, "setUp", prog["setUp"])
 
         def test(self):
@@ -311,7 +319,32 @@ def observers():
     return g, list(tlog.theLogPublisher.observers)
 
 
+def _extra_observer_1(event):
+    pass
+
+
+def _extra_observer_2(event):
+    pass
+
+
 def x_history(ctx, case):
+    # an application that has observers of its own on Twisted's log (a file log, a metrics hook): after the run they
+    # are all there again - every one of them, in their order
+    from twisted.python import log as tlog
+    extra = [_extra_observer_1, _extra_observer_2][:case.get("extra_observers", 0)]
+    for o in extra:
+        tlog.addObserver(o)
+    try:
+        return _history(ctx, case)
+    finally:
+        for o in extra:
+            try:
+                tlog.removeObserver(o)
+            except ValueError:
+                pass
+
+
+def _history(ctx, case):
     from testtools.twistedsupport import flush_logged_errors
     nontrivial = False
     for pi, prog in enumerate(case["progs"]):
@@ -438,7 +471,8 @@ def x_history(ctx, case):
             core2 = [n for n in log2.names() if n in ("startTest", "stopTest") or n in recorders.OUTCOMES]
             entered2 = [n for k2, n, t in stagelog if k2 == "enter"]
             ctx.check(core2 == ["startTest", "addSuccess", "stopTest"] and prop2 is None
-                      and entered2 == ["setUp", "test", "tearDown", "cleanup0"] and not reactor.getDelayedCalls()
+                      and entered2 == ["setUp", "test", "tearDown"] + (["dup", "cleanup0", "dup"] if prog.get("dup_cleanup") else ["cleanup0"])
+                      and not reactor.getDelayedCalls()
                       and observers() == obs_before, "rerun.clean-run-after-a-timed-out-one",
                       lambda: {"first run": prog, "second run (all stages return at once, one cleanup)": core2,
                                "stages entered": entered2, "propagated": repr(prop2),
@@ -478,7 +512,7 @@ def late_cleanup_programs():
 
 
 def _stage_spec(prog, name):
-    if name.startswith("late-"):
+    if name.startswith("late-") or name == "dup":
         return {"end": "ret"}
     if name.startswith("cleanup"):
         return prog["cleanups"][int(name[7:])]
@@ -712,6 +746,8 @@ def run(ctx):
             slot = rng.choice(STAGES + ["cleanups"])
             tgt = p[slot] if slot != "cleanups" else (rng.choice(p["cleanups"]) if p["cleanups"] else p["test"])
             tgt["do"] = ["logmsg:%d" % rng.randrange(len(LOG_TEXTS))] + list(tgt.get("do", []))
+        if p["cleanups"] and rng.random() < 0.15:
+            p["dup_cleanup"] = True
         if rng.random() < 0.25:
             p["stop_at"] = rng.choice([0.1, 0.3, 0.6, 0.9, 1.1, 1.7, 2.3, 5.0])
         elif rng.random() < 0.3:
@@ -720,6 +756,9 @@ def run(ctx):
     for i in range(ctx.scale(2500, 200000)):
         if ctx.out_of_time():
             break
-        ctx.execute("history", {"progs": [rand_prog() for _ in range(rng.choice([1, 1, 2]))]})
+        case = {"progs": [rand_prog() for _ in range(rng.choice([1, 1, 2]))]}
+        if rng.random() < 0.3:
+            case["extra_observers"] = rng.choice([1, 2, 2])
+        ctx.execute("history", case)
     if ctx.shard == 0:
         ctx.execute("real", {})
